@@ -45,6 +45,14 @@ type Gen struct {
 	FailedThenMore  bool
 	sawFail         bool
 	Kinds           map[string]int
+	bulkSeq         int
+}
+
+func nameOfLenG(n int, prefix string) string {
+	if n <= len(prefix) {
+		return prefix[:n]
+	}
+	return prefix + strings.Repeat("z", n-len(prefix))
 }
 
 func NewGen(x *Exec, cfg GenCfg) *Gen {
@@ -384,6 +392,27 @@ func (g *Gen) Actions(fail func(t *rapid.T, err error)) map[string]func(*rapid.T
 			return x.Commit(r, off, cnt)
 		}),
 	}
+	// many entries with names near the maximum length in one directory (several directory blocks,
+	// replies that exceed size budgets), and many objects at once (more than the inode cache holds)
+	acts["bulk"] = do("BULK", func(t *rapid.T) error {
+		d := g.DirRef(t)
+		if d.N == nil || !d.N.IsDir() || len(d.N.Children) > 150 {
+			return nil
+		}
+		n := pick(t, []int{20, 33, 45, 70, 120}, "bulkcount")
+		long := rapid.Bool().Draw(t, "longnames")
+		g.bulkSeq++
+		for i := 0; i < n; i++ {
+			name := fmt.Sprintf("b%d_%d", g.bulkSeq, i)
+			if long {
+				name = nameOfLenG(pick(t, []int{97, 100, 105, 110, 111, 112}, "len"), name+"_")
+			}
+			if err := x.Create(d, name); err != nil {
+				return err
+			}
+		}
+		return nil
+	})
 	acts["remove2"] = acts["remove"]
 	acts["rename2"] = acts["rename"]
 	acts["setattr2"] = acts["setattr"]
